@@ -133,7 +133,44 @@ Definition punct_val (w : str) : bool :=
   | _ => false
   end.
 
-(* well-formed identifier / number / operator token; [rx] = the lexer is in regex context before it *)
+(* string / template body after the opening quote: ends with the first unescaped closing quote *)
+Fixpoint q_closed (q : N) (a : str) : bool :=
+  match a with
+  | [] => false
+  | c :: r =>
+      if c =? 92 then match r with [] => false | _ :: r' => q_closed q r' end
+      else if c =? q then (match r with [] => true | _ => false end)
+      else q_closed q r
+  end.
+
+Lemma scan_q_app : forall n a, (List.length a <= n)%nat -> forall q acc rest, q_closed q a = true ->
+  scan_q q (a ++ rest) acc = (rev acc ++ a, rest, false).
+Proof.
+  induction n as [|n IH]; intros a Hn q acc rest H.
+  - destruct a; [discriminate|cbn in Hn; lia].
+  - destruct a as [|c r]; [discriminate|]. cbn [q_closed] in H. cbn [app scan_q].
+    destruct (c =? 92).
+    + destruct r as [|d r']; [discriminate|]. cbn [app]. rewrite (IH r') by (cbn in Hn; lia || exact H).
+      cbn [rev]. repeat rewrite <- app_assoc. reflexivity.
+    + destruct (c =? q).
+      * destruct r; [|discriminate]. cbn [app rev]. reflexivity.
+      * rewrite (IH r) by (cbn in Hn; lia || exact H). cbn [rev]. repeat rewrite <- app_assoc. reflexivity.
+Qed.
+
+Lemma lex_one_string b r rout : ((b =? 39) || (b =? 34)) = true ->
+  lex_one b r rout = (let '(v, rest, ov) := scan_q b r [] in ((tkString, b :: v), rest, ov)).
+Proof.
+  intros H. unfold lex_one.
+  assert (E1 : is_ws b = false) by (unfold is_ws; lia).
+  assert (E2 : (b =? 47) = false) by lia.
+  rewrite E1, E2, H. cbn [andb]. reflexivity.
+Qed.
+
+Lemma lex_one_template r rout :
+  lex_one 96 r rout = (let '(v, rest, ov) := scan_q 96 r [] in ((tkTemplate, 96 :: v), rest, ov)).
+Proof. reflexivity. Qed.
+
+(* well-formed identifier / number / operator / string / template token; [rx] = the lexer is in regex context before it *)
 Definition tok_shape (t : tok) (rx : bool) : bool :=
   match snd t with
   | [] => false
@@ -141,6 +178,8 @@ Definition tok_shape (t : tok) (rx : bool) : bool :=
       if fst t =? tkIdent then is_ident_start b && forallb is_ident_cont a
       else if fst t =? tkNumber then (is_digit b || ((b =? 46) && head_digit a)) && num_body b a
       else if fst t =? tkPunct then punct_start b && negb ((b =? 47) && rx) && punct_val (b :: a)
+      else if fst t =? tkString then ((b =? 39) || (b =? 34)) && q_closed b a
+      else if fst t =? tkTemplate then (b =? 96) && q_closed 96 a
       else false
   end.
 
@@ -195,7 +234,13 @@ Proof.
       + destruct (((c =? 43) || (c =? 45)) && ((last a b =? 101) || (last a b =? 69))); [discriminate|reflexivity].
     - destruct (is_digit b); [reflexivity|]. cbn [orb] in *. apply andb_true_iff in H1 as [H1 H3]. rewrite H1. cbn [andb].
       destruct a as [|x a']; [discriminate|]. exact H3. }
-  destruct (k =? tkPunct) eqn:Ep; [|discriminate].
+  destruct (k =? tkPunct) eqn:Ep.
+  2:{ destruct (k =? tkString) eqn:Est.
+      { apply N.eqb_eq in Est. subst k. apply andb_true_iff in Hs as [H1 H2].
+        rewrite lex_one_string by exact H1. rewrite (scan_q_app (List.length a) a (le_n _) b [] rest H2). reflexivity. }
+      destruct (k =? tkTemplate) eqn:Etp; [|discriminate].
+      apply N.eqb_eq in Etp. subst k. apply andb_true_iff in Hs as [H1 H2]. apply N.eqb_eq in H1. subst b.
+      rewrite lex_one_template. rewrite (scan_q_app (List.length a) a (le_n _) 96 [] rest H2). reflexivity. }
   apply N.eqb_eq in Ep. subst k.
   apply andb_true_iff in Hs as [Hs Hv]. apply andb_true_iff in Hs as [Hps Hrx].
   destruct a as [|c a].
@@ -260,8 +305,12 @@ Proof.
   { apply andb_true_iff in H as [H _]. unfold is_ident_start, is_ws in *. lia. }
   destruct (fst t =? tkNumber).
   { apply andb_true_iff in H as [H _]. unfold is_digit, is_ws in *. lia. }
-  destruct (fst t =? tkPunct); [|discriminate].
-  unfold punct_start in H. destruct (is_ws b); [discriminate|reflexivity].
+  destruct (fst t =? tkPunct).
+  { unfold punct_start in H. destruct (is_ws b); [discriminate|reflexivity]. }
+  destruct (fst t =? tkString).
+  { apply andb_true_iff in H as [H _]. unfold is_ws. lia. }
+  destruct (fst t =? tkTemplate); [|discriminate].
+  apply andb_true_iff in H as [H _]. unfold is_ws. lia.
 Qed.
 
 Lemma emit_from_cons lastv lastk (t : tok) (r : list tok) : (fst t =? tkWS) = false ->
